@@ -1270,6 +1270,15 @@ class LuaASTEchoWriter(BaseLuaWriter):
         """
         self._pos = 0
 
+        # The parser's entry point does not check that it reached the end of
+        # the code. Writing out the tree would silently drop everything after
+        # the point where it stopped.
+        for tok in self._tokens[self._root.end_pos:]:
+            if not (isinstance(tok, lexer.TokSpace) or
+                    isinstance(tok, lexer.TokNewline) or
+                    isinstance(tok, lexer.TokComment)):
+                raise parser.ParserError('Unexpected token', token=tok)
+
         linebuf = []
         last_was_newline = False
         for chunk in self.walk():
